@@ -189,6 +189,9 @@ class World(object):
             t = rng.choice([b'RESTORE:READ Q$:PRINT Q$', b'READ Q$,R$:PRINT R$;Q$'])
         elif op == 'LoadP':
             t = rng.choice([b'LOAD "PROT"', b'LOAD "PROT.BAS"'])
+        elif op == 'ChainP':
+            # the protected file reached through CHAIN (round-4 seeded change C16d dropped the protection of a chained ,P file)
+            t = rng.choice([b'CHAIN "PROT"', b'CHAIN "PROT.BAS"'])
         elif op == 'LoadB':
             t = b'LOAD "PLAIN"'
         elif op == 'New':
